@@ -39,6 +39,7 @@ def run(ctx):
     check_cliques(ctx)
     check_modes(ctx)
     check_schedule(ctx)
+    check_separators(ctx)
     ctx.floor('construction steps checked', len(ctx.obligations), 12)
 
 
@@ -169,6 +170,29 @@ def check_schedule(ctx):
     R = be.env.get('__ret__')
     R0 = strip_wrappers(R) if R is not None else None
     graphs = sorted({U(c.func.value) for s_, c, pc, loops in be.calls if isinstance(c.func, ast.Attribute) and c.func.attr == 'add_edges_from'})
+    if not graphs and R is not None:
+        # no dependency graph at all: the two-sweep schedule  collect + distribute  over a rooted traversal D of the tree:
+        #   [(b, a) for a, b in reversed(D)] + D        (children report before their parent does, then parents inform children)
+        if isinstance(R, ast.BinOp) and isinstance(R.op, ast.Add):
+            up, down = R.left, R.right
+            d0 = strip_wrappers(down)
+            trav = isinstance(d0, ast.Call) and U(d0.func).split('.')[-1] in ('dfs_edges', 'bfs_edges') and d0.args and T(d0.args[0]) == 'self.tree'
+            b = Builder.of_comprehension(up)
+            if trav and b is not None and len(b.gens) == 1 and not b.conds:
+                elt, gens, conds = b.canon()
+                src = strip_wrappers(b.gens[0][1])
+                rev = isinstance(src, ast.Call) and U(src.func) == 'reversed' and len(src.args) == 1 and T(strip_wrappers(src.args[0])) == T(d0)
+                sliced = isinstance(src, ast.Subscript) and T(src.slice) == '::-1' and T(strip_wrappers(src.value)) == T(d0)
+                plain = T(src) == T(d0)
+                flipped = elt == '(_g0_1,_g0_0)'
+                if flipped and (rev or sliced or plain):
+                    ctx.ob('schedule', fi, fi.node, rev or sliced,
+                           'two-sweep schedule: the collect sweep must run over the traversal `%s` in REVERSE (every clique hears from its children '
+                           'before it reports to its parent), followed by the traversal itself; the collect sweep iterates `%s`' % (U(d0)[:60], U(src)[:80]),
+                           construct='collect / distribute schedule')
+                    ctx.ob('schedule', fi, fi.node, True, 'one message per direction of every tree edge (each traversal edge once in each sweep)',
+                           construct='message set of the schedule')
+                    return
     if len(graphs) != 1:
         raise AnalysisError('mp_order: expected one dependency graph (receiver of add_edges_from), found %s' % graphs)
     G = graphs[0]
@@ -246,6 +270,9 @@ def check_schedule(ctx):
            'message (a,b) must precede every (b,c) with c != a - and nothing else - : edge m1 -> m2 iff m1[1] == m2[0] and m1[0] != m2[1], '
            'for m1, m2 ranging over all messages; the source builds %s' % (got or '%d collections' % len(bs)),
            construct='dependency relation of the schedule')
+
+
+def check_separators(ctx):
     sep = ctx.repo.nfunc(JT, 'JunctionTree.separator_axes')
     rets = [r for r in walk_shallow(sep.node) if isinstance(r, ast.Return)]
     ok = bool(rets) and U(rets[-1].value).replace(' ', '') in ('{(i,j):tuple(set(i)&set(j))for(i,j)inself.mp_order()}',
